@@ -33,6 +33,11 @@ func gen(r *Rng, tier string, emit Emit) {
 		emit("P", "p_save_identity", H(img))
 		emit("C", "parse", H(img))
 		emit("C", "save", H(img))
+		// is the image in the domain of theorem C01_save_identity? (model re-serialises the grammar
+		// term and evaluates the decidable well-formedness check)
+		if spec, ok := uefigen.SpecString(reg); ok {
+			emit("C", "grammar", H(img), spec)
+		}
 		// a single volume is also an entry shape
 		v := uefigen.GenVol(rr, o, 0)
 		vb, _ := uefigen.EmitVol(v)
@@ -45,5 +50,7 @@ func gen(r *Rng, tier string, emit Emit) {
 
 func main() {
 	uefiops.RegisterAll()
+	// the generator claims membership; the model decides
+	Register("grammar", func(args []string) string { return "member" })
 	Main(gen)
 }
